@@ -3,8 +3,8 @@
    for every H > 0 (H = 2^7, 2^15, 2^31, 2^63, 2^127, 2^255 are the machine widths).
    i256 limbs: B = 2^64, H = 2^127 abstractly as any B, H with 0 < B, B*B = 2H. *)
 From Coq Require Import List ZArith NArith Bool.
-From AV Require Import Model.C12_Int Model.C12_Kernel Model.C12_I256 Model.C12_Bool Model.C12_Agg.
-From AV Require Import Proofs.C12_Int Proofs.C12_Kernel Proofs.C12_I256 Proofs.C12_I256Mul Proofs.C12_Bool Proofs.C12_Agg.
+From AV Require Import Model.C12_Int Model.C12_Kernel Model.C12_I256 Model.C12_Bool Model.C12_Agg Model.C12_Decimal.
+From AV Require Import Proofs.C12_Int Proofs.C12_Kernel Proofs.C12_I256 Proofs.C12_I256Mul Proofs.C12_Bool Proofs.C12_Agg Proofs.C12_Decimal.
 Import ListNotations.
 Local Open Scope Z_scope.
 
@@ -273,3 +273,26 @@ Theorem sum_checked_exact : forall (H : Z), 0 < H -> forall (s : bool) (a : parr
   sum_checked s H a = spec_sum_checked s H (denote a).
 Proof. exact sum_checked_spec. Qed.
 Print Assumptions sum_checked_exact.
+
+(* ---------------------------------------------------------------- decimals *)
+
+(* the closure decimal_op applies per row (equal-scale fast path or rescale-then-operate with the
+   multipliers lm, rm): Overflow iff a rescaled operand or the result does not fit the native type,
+   DivideByZero iff the rescaled divisor is 0, otherwise the exact sum / difference / product /
+   truncated quotient / remainder of the rescaled operands *)
+Theorem decimal_row_exact_or_error : forall (H : Z), 0 < H ->
+  forall (op : dop) (same : bool) (lm rm x y : Z),
+  in_range true H x = true -> in_range true H y = true ->
+  (same = true -> lm = 1 /\ rm = 1) -> (op = DMul -> lm = 1 /\ rm = 1) ->
+  (op = DRem -> ~ (x * lm = - H /\ y * rm = -1)) ->
+  decimal_row H op same lm rm x y =
+  fits H (x * lm) (fun a => fits H (y * rm) (fun b =>
+    match op with
+    | DAdd => fits H (a + b) Ok
+    | DSub => fits H (a - b) Ok
+    | DMul => fits H (a * b) Ok
+    | DDiv => if b =? 0 then Err E_DIVZERO else fits H (Z.quot a b) Ok
+    | DRem => if b =? 0 then Err E_DIVZERO else Ok (Z.rem a b)
+    end)).
+Proof. exact decimal_row_exact. Qed.
+Print Assumptions decimal_row_exact_or_error.
